@@ -1,4 +1,5 @@
 import RSV.Proofs.Dispatch
+import RSV.Props.Consts
 
 /-!
 # C07 — results do not depend on goroutine settings / split sizes / kernel granularity
@@ -222,6 +223,12 @@ chain to `byteCount` -/
 example : ¬ Chain (updateRanges 1 2 0) 0 1 := by decide
 example : ¬ Chain (scalarRounds 1 0 2 0) 0 1 := by decide
 
+/-- the code-generation thresholds regenerated from the Go source are the ones the dispatch model assumes -/
+theorem C07_constants : RSV.Gen.minCodeGenSize = 64 ∧ RSV.Gen.codeGenMinSize = 64 ∧ RSV.Gen.codeGenMinShards = 3 ∧
+    RSV.Gen.codeGenMaxInputs = 10 ∧ RSV.Gen.codeGenMaxOutputs = 10 ∧ RSV.Gen.codeGenMaxGoroutines = 8 ∧
+    RSV.Gen.gfniCodeGenMaxGoroutines = 4 := RSV.Props.Consts.dispatch_constants
+
+
 end RSV.Props.C07
 
 #print axioms RSV.Props.C07.C07_splitLoop_chain
@@ -246,3 +253,4 @@ end RSV.Props.C07
 #print axioms RSV.Props.C07.C07_workers_disjoint
 #print axioms RSV.Props.C07.C07_update_workers_disjoint
 #print axioms RSV.Props.C07.C07_allPieces_disjoint
+#print axioms RSV.Props.C07.C07_constants
